@@ -14,7 +14,7 @@
 (* exact rationals (position, velocity, acceleration), commands a kind     *)
 (* 0..2 and a rational.                                                    *)
 (***************************************************************************)
-EXTENDS Integers, Sequences, FiniteSets, TLC, Json, Rat, Outcome
+EXTENDS Integers, Sequences, FiniteSets, TLC, Json, Rat, Outcome, TerminalLinks
 
 CONSTANTS Family,    \* "single" | "chain" | "match" | "matchdata"
           DevTypes,  \* device types explored ("invert", "gear", "axle", "diff")
@@ -121,12 +121,7 @@ ReadStateIn(l, s, x) ==
   IN  IF IsNothing(a) THEN b
       ELSE IF IsNothing(b) THEN a
       ELSE Just(SD(MaxI(The(a).t, The(b).t), TDiv(TAdd(The(a).v, The(b).v), Two)))
-ReadCmdIn(l, c, x) ==
-  LET a == c[x]
-      b == IF l[x] = 0 THEN Nothing ELSE c[l[x]]
-  IN  IF IsNothing(a) THEN b
-      ELSE IF IsNothing(b) THEN a
-      ELSE IF The(b).t > The(a).t THEN b ELSE a          \* partner wins only when strictly newer
+ReadCmdIn(l, c, x) == SelectCmd(c[x], PartnerOpt(l, c, x))      \* partner wins only when strictly newer (TerminalLinks)
 ReadState(x) == ReadStateIn(link, ost, x)
 ReadCmd(x)   == ReadCmdIn(link, ocmd, x)
 ReadDataIn(l, s, c, x) ==
@@ -137,8 +132,7 @@ ReadDataIn(l, s, c, x) ==
 
 -----------------------------------------------------------------------------
 (* connect / disconnect: the link function stays a symmetric matching.     *)
-Unlink(l, i) == IF l[i] = 0 THEN l ELSE [l EXCEPT ![i] = 0, ![l[i]] = 0]
-ConnectL(l, i, j) == [Unlink(Unlink(l, i), j) EXCEPT ![i] = j, ![j] = i]
+(* Unlink and ConnectL are defined in module TerminalLinks *)
 
 -----------------------------------------------------------------------------
 (* Device updates.  Each returns <<ost', ocmd'>>.                          *)
